@@ -151,8 +151,14 @@ def alloc (order : List NameKey) (x : Input) : Table := extend x.names (allocSta
 /-- name ids of all records whose string is `s` -/
 def idsOf (t : Table) (s : Str) : List Nat := (t.filter fun p => p.2 = s).map (·.1.id)
 
-/-- `reverse_names().get(s)` as a sorted sequence (`BTreeSet<NameId>` iteration; duplicates are harmless for `find`) -/
-def reverseIds (t : Table) (s : Str) : List Nat := (idsOf t s).mergeSort (fun a b => a ≤ b)
+/-- insertion into an ascending list / insertion sort (structural, so that closed instances evaluate in the kernel) -/
+def insertAsc (a : Nat) : List Nat → List Nat
+  | [] => [a]
+  | b :: t => if a ≤ b then a :: b :: t else b :: insertAsc a t
+def sortAsc (l : List Nat) : List Nat := l.foldr insertAsc []
+
+/-- `reverse_names().get(s)` as an ascending sequence (`BTreeSet<NameId>` iteration; duplicates are harmless for `find`) -/
+def reverseIds (t : Table) (s : Str) : List Nat := sortAsc (idsOf t s)
 
 /-- fvar.rs:41-49 `reusable_name_id(name, allow_reserved)`; `none` = one of the two `unwrap()`s panics -/
 def reusableNameId (t : Table) (s : Str) (allowReserved : Bool) : Option Nat :=
@@ -328,45 +334,36 @@ def pad3 (n : Nat) : Str :=
 /-- ir.rs:980-983 `format!("Version {major}.{minor:0>3}")` -/
 def versionString (major : Int) (minor : Nat) : Str := lit "Version " ++ intStr major ++ 0x2E :: pad3 minor
 
-/-- `NameBuilder::build` (ir.rs:930-1048), statement by statement. Result: id ↦ string. -/
+/-- the recurring statement shape `if !self.contains_key(id) { self.add(id, v) }` -/
+def Builder.ensure (b : Builder) (id : Nat) (v : Str) : Builder := if b.has id then b else b.add id v
+
+/-- `NameBuilder::build` (ir.rs:930-1048), statement by statement. Result: id ↦ string.
+    (Values that the Rust code computes only inside the `else` branch are pure, so they are bound up front.) -/
 def Builder.build (b : Builder) (vendor : Str) : List (Nat × Str) :=
-  -- ir.rs:938-954
-  let (b, suffix) : Builder × Option Str :=
-    if b.has 2 then (b, none)
-    else
-      let fs := b.fallbackString 2 17
-      let (sub, suf) : Str × Option Str := if isRibbi fs then (fs, none) else (lit "Regular", some fs)
-      (b.add 2 sub, suf.filter (fun s => !s.isEmpty))
+  -- ir.rs:938-954: legacy subfamily; a non-RIBBI fallback becomes a suffix of the legacy family name
+  let fs := b.fallbackString 2 17
+  let suffix : Option Str := if b.has 2 || isRibbi fs || fs.isEmpty then none else some fs
+  let b := b.ensure 2 (if isRibbi fs then fs else lit "Regular")
   -- ir.rs:957-965
-  let b :=
-    if b.has 1 then b
-    else
-      let ff := b.fallbackString 1 16
-      b.add 1 (match suffix with
-        | some s => ff ++ 0x20 :: s
-        | none => ff)
+  let ff := b.fallbackString 1 16
+  let b := b.ensure 1 (match suffix with
+    | some s => ff ++ 0x20 :: s
+    | none => ff)
   -- ir.rs:968-974
   let b := b.applyFallback 16 [1]
   let b := b.applyFallback 17 [2]
   -- ir.rs:977-984
-  let b := if b.has 5 then b else b.add 5 (versionString b.major b.minor)
+  let b := b.ensure 5 (versionString b.major b.minor)
   -- ir.rs:987-998
-  let b := if b.has 4 then b else b.add 4 (makeFamilyName ((b.get 16).getD []) ((b.get 17).getD []))
+  let b := b.ensure 4 (makeFamilyName ((b.get 16).getD []) ((b.get 17).getD []))
   -- ir.rs:1001-1015
-  let b :=
-    if b.has 6 then b
-    else
-      let family := ((b.get 16).getD []).filter (fun c => c != 0x20)
-      let subfamily := (b.get 17).getD []
-      let family := if subfamily.isEmpty then family else family ++ [0x2D]
-      b.add 6 (normalizePS (makeFamilyName family subfamily))
+  let b := b.ensure 6 (
+    let family := ((b.get 16).getD []).filter (fun c => c != 0x20)
+    let subfamily := (b.get 17).getD []
+    let family := if subfamily.isEmpty then family else family ++ [0x2D]
+    normalizePS (makeFamilyName family subfamily))
   -- ir.rs:1018-1029 (the two `unwrap`s are safe: ids 5 and 6 were just ensured)
-  let b :=
-    if b.has 3 then b
-    else
-      let version := removeSub (lit "Version ") ((b.get 5).getD [])
-      let ps := (b.get 6).getD []
-      b.add 3 (version ++ 0x3B :: vendor ++ 0x3B :: ps)
+  let b := b.ensure 3 (removeSub (lit "Version ") ((b.get 5).getD []) ++ 0x3B :: vendor ++ 0x3B :: (b.get 6).getD [])
   -- ir.rs:1033-1041
   let b :=
     if (b.get 1).isSome && (b.get 2).isSome && b.get 1 == b.get 16 && b.get 2 == b.get 17
